@@ -135,6 +135,16 @@ func transcriptU(session int, desc string, b *gabi.CredentialBuilder, p *gabi.Pr
 	return t
 }
 
+// transcriptUSecretOnly: a further commitment made by an issuance builder that has already produced one. The randomizers of
+// v' and of the user shares are drawn once per builder (builders are single-session objects by design, like the disclosure
+// builders' eCommit/vCommit), the one for the secret key is drawn per commitment: only the latter is compared across the two.
+func transcriptUSecretOnly(session int, desc string, b *gabi.CredentialBuilder, p *gabi.ProofU) *transcript {
+	t := &transcript{session: session, desc: desc, c: p.C}
+	secret, _, _, _, _, _, _ := b.VerifState()
+	t.entries = append(t.entries, tEntry{"secret-key", p.SResponse, secret})
+	return t
+}
+
 // the oracles of C07 over all transcripts of one history
 func c07Oracles(s *Suite, hist string, ts []*transcript) { proofOracles(s, "C07", hist, ts) }
 
@@ -330,6 +340,12 @@ func suiteC07(s *Suite, rng *Rng, tier string) {
 			}
 			if withIssue {
 				local = append(local, transcriptU(sid, fmt.Sprintf("s%d/%s/issue", sid, who), cb, pl[len(pl)-1].(*gabi.ProofU)))
+				// the same issuance builder asked for a stand-alone commitment afterwards (a retried issuance): a new session
+				// with a new challenge, which needs a fresh randomizer for the secret key
+				if msg, err := cb.CommitToSecretAndProve(lr.bits(80)); err == nil {
+					sid2 := newSession()
+					local = append(local, transcriptUSecretOnly(sid2, fmt.Sprintf("s%d/%s/issue-again", sid2, who), cb, msg.Proofs[0].(*gabi.ProofU)))
+				}
 			}
 			// every produced proof list must be as valid as any other (also under concurrency)
 			if !clonePl(pl).Verify(pks1(len(pl)), ctx, nonce, false, nil) {
@@ -365,6 +381,14 @@ func suiteC07(s *Suite, rng *Rng, tier string) {
 			tsMu.Lock()
 			ts = append(ts, t)
 			tsMu.Unlock()
+			// a second commitment from the same builder under another nonce
+			if msg2, err := cb.CommitToSecretAndProve(lr.bits(80)); err == nil {
+				sid2 := newSession()
+				t2 := transcriptUSecretOnly(sid2, fmt.Sprintf("s%d/%s/issue-again", sid2, who), cb, msg2.Proofs[0].(*gabi.ProofU))
+				tsMu.Lock()
+				ts = append(ts, t2)
+				tsMu.Unlock()
+			}
 		}
 		updateAll := func() {
 			h.revoke(nextPrime(rng.Bits(100), 1))
